@@ -109,4 +109,69 @@ CHECKS.update({
         "a history the literal model does not explain is a VIOLATION; in the 8 listed tool scenarios the first invariant failure hides later events of the same scenario.",
    technique="TLA+ model checking (TLC) of the undo protocol + trace validation of API histories and of recorded system-call streams of every -z tool"),
 })
+CHECKS.update({
+ "C01": dict(level="model_checking",
+   text="Fsck.tla is a tiny design model of e2fsck passes 1-5 (TLC: one repair run over every state reachable by <= 2 (thorough 3) catalogue corruptions ends in a state the read-only run accepts; the "
+        "design mutant 'pass 5 repairs the bitmap in memory only' is caught). Corrupt.tla is the closed universe (6 296 catalogue entries, 780 interacting pairs, closed triples) enumerated by TLC. "
+        "Conformance: every universe element is concretised through the independent reader's location map on 15 base profiles, the real `e2fsck -fy -E problem_log` then `e2fsck -fn -E problem_log` run, "
+        "and TLC (Trace_Tools, C01_Holds: Success(exit1) => exit2 = 0 /\\ problems2 = <<>>) decides every line.",
+   note="Trusted: TLC, gen/corrupt.py (checksum fixers self-tested: recomputation on a pristine object is the identity), e2fsck's own problem log as the failure signature. 36 known findings keyed by the "
+        "second run's problem signature (clusters: quota usage after an inode clear, invalid symlink + filetype, bitmap differences after extent-count repairs, resize-inode repeats, i_size flip-flop). "
+        "Quick is a seeded subset (~1 700 elements), thorough the whole universe (48 094 lines). Fsck.tla is not bound to the code line by line.",
+   technique="TLA+ design model of the e2fsck passes (TLC) + spec-enumerated corruption universe with per-line trace validation of real e2fsck -fy / -fn runs"),
+ "C02": dict(level="model_checking",
+   text="Ext4Abs.tla states the ext4 consistency invariants independently of libext2fs (InRange, NotFixedMeta, SingleOwner, BitmapsExact, GroupCounts, Links, Shapes, Csums); Fsck.tla (design model) is "
+        "checked by TLC for `FsckN clean <=> Consistent` on every state reachable by <= 2 corruptions, with design mutants that must break it. Conformance: for every element of the TLC-enumerated "
+        "corruption universe the real `e2fsck -fn` runs on the corrupted copy, the independent reader projects the same bytes, and TLC (Trace_Tools, TFsckN) evaluates FailedConjuncts(st0) and "
+        "C02_Holds == exit = 0 => Consistent on the logged line.",
+   note="Trusted: TLC, reader/ext4read.py (cross-validated against e2fsck -fn on the 232 images of the repository's suite and 200 mutated images), gen/corrupt.py. A state the reader cannot produce is "
+        "'unknown' (counted, never a violation). Violations are restricted to the rule classes the property text lists (Ext4Abs!Shapes / Links are stricter). One known finding (out-of-range i_file_acl on "
+        "inodes no directory entry names).",
+   technique="TLA+ statement of the ext4 invariants evaluated by TLC on independent projections of corrupted images + design model of the passes (TLC)"),
+ "C04": dict(level="model_checking",
+   text="JournalRun.tla models the recovery front-ends (e2fsck/journal.c, debugfs/journal.c around recovery.c) over unix_io's write-back cache and a device with a volatile write cache; TLC explores every "
+        "replay plan of the bound, every crash point, every lost-write subset and the re-run on the crash image (Idempotent, IdempotentSubsets, NeverEmptyBeforeDurable, KeepsRequesting, FlagAfterEmpty), "
+        "and must reject three wrong orderings. Conformance: journals from C03's generator and the repository's j_* images are recovered by the real front-ends under iotrace.so; the recorded "
+        "pwrite/fsync stream is validated by TLC against Trace_JournalRun (invariants on every crash image of every prefix); crash images for crash points x lost-write subsets are rebuilt from the "
+        "recorded payloads (cross-checked against a process really killed at that write), recovery is re-run and TLC accepts the line only if the result equals RunAgainOf(image) = Final.",
+   note="Trusted: TLC, iotrace.so, the classification of writes against a shadow image. Block-exact comparison excludes s_wtime, s_kbytes_written, s_checksum and the journal superblock's s_sequence. "
+        "A single pwrite is assumed atomic; internal journals only; fast-commit not modelled. Two known findings (DevSbPiecemeal, DevErrorLostOnCrash).",
+   technique="TLA+ crash/recovery protocol model (TLC) + trace validation of recorded recovery write streams + fault enumeration of crash images on the real front-ends"),
+ "C05": dict(level="model_checking",
+   text="FsckPreserve.tla models what the five repair modes do to the representation (directory leaves + hash index: rehash.c; extent list / block map: extents.c; bitmaps, counts, flags, checksum "
+        "fields: pass 5 and checksum-only repairs) and TLC checks TreeUnchanged, ExitOK, ConsistentAfter, ModeScope from every consistent start, with summary-only corruptions and two consecutive runs; "
+        "literal faulty behaviours must give counterexamples. Conformance: the universe is enumerated by the spec (modes x directory family x mapping shapes x summary corruption kinds); the real "
+        "e2fsck runs on base images, family images and summary/checksum-only corruptions; the independent reader projects before and after; TLC evaluates Consistent, builds the observable tree and "
+        "evaluates the invariants of FsckPreserve on every line.",
+   note="Trusted: TLC, the reader's tree (paths, types, sizes, modes, owners, nlink, symlink targets, content digests, xattr digests), gen/c05_summary.py. Two known findings (DevSbCsumRefuses; "
+        "DevInodeUninitWipes if its repair is not committed).",
+   technique="TLA+ model of e2fsck's rewriting modes (TLC) + trace validation of real e2fsck runs through an independent reader"),
+ "C18": dict(level="model_checking",
+   text="TreeGen.tla: abstract tree universe (types, name/size/hole classes, hard-link groups incl. across devices, modes, owners, times, xattrs, symlink lengths), the property-level Expect and the "
+        "implementation-shaped PopModel (create_inode.c) and RdumpModel (dump.c); TLC explores every tree of a small configuration (InvPopulateExact, InvRdumpExact) and each Dev* constant must give a "
+        "counterexample. Conformance: TLC simulates the builder (seeded) and emits trees; each is materialised on the host; per feature profile `mke2fs -d` and a `debugfs -w -f` script populate an "
+        "image; the independent reader's listing (digests, mapped ranges), Consistent, e2fsck -fn, byte comparison of a second run and `debugfs rdump` / `dump -p` / `cat` re-read from the host are one "
+        "trace line per case decided by TLC (Trace_TreeGen, 22 named clauses).",
+   note="Trusted: TLC, the reader, gen/tree.py (host probes for SEEK_HOLE, user xattrs, tmpfs mounts; dependent clauses are skipped with a note when unavailable). debugfs front end is compared on the "
+        "attributes its commands take. libarchive/tar input, > 60 nodes, > 2 GiB files, post-2038 times not covered. One known finding (debugfs does no quota accounting).",
+   technique="TLA+ tree universe and populate/extract models (TLC) + trace validation of real mke2fs -d / debugfs / rdump runs on spec-generated trees"),
+ "C19": dict(level="model_checking",
+   text="E2image.tla: block classes of an abstract filesystem with MetaLive, the discovery rule of write_raw_image_file class by class, a literal transcription of the qcow2 writer (cluster allocation, "
+        "L1/L2 tables with cache flush, refcounts) and of qcow2_write_raw_image; TLC checks DiscoveryOK, RawContract, WriterSane, MapExact, RefcountExact, ConvertEqualsRaw on small constants over every "
+        "subset of marked/zero blocks. Conformance: 15 base profiles + generated filesystems crossing L2-table boundaries run through e2image -r, -Q, -r of the qcow2, -ra, -Qa, -r of that, under "
+        "iotrace.so on the source; blocks are classified by the independent reader; per-class difference counts, e2fsck/dumpe2fs equality, the check's own parse of the qcow2 structures and the "
+        "source's system-call record are validated per line by TLC (Trace_E2image); a second trace spec replays the literal writer model with the real constants and must reproduce the real file layout.",
+   note="Trusted: TLC, the reader's block classification, iotrace.so. Options -b/-o/-O/-c/-s/-I/-p, stdout/block-device output and the old 'normal' format are not covered; damaged sources are not covered. "
+        "Backups and blocks the format declares uninitialised are not required in an image.",
+   technique="TLA+ model of e2image's block discovery and qcow2 writer/reader (TLC) + trace validation of real e2image runs incl. exact file-layout replay"),
+ "C20": dict(level="model_checking",
+   text="Backups.tla (EXTENDS Geometry): primary fields + content of every block that can hold a backup; actions Mkfs, Resize, TuneFeature, TuneUUID, TuneISize, FsckRepair, FsckFromBackup, "
+        "DestroyPrimary, RecoverFrom(loc) transcribing which copies ext2fs_flush2 rewrites under MASTER_SB_ONLY / SUPER_ONLY; TLC checks for every geometry up to MaxG groups and every tool sequence up "
+        "to MaxSteps that the backup set is exactly the format's, every prescribed copy is current after every tool and recovery from any prescribed location restores the primary. Conformance: the "
+        "universe (geometries x tool sequences) is enumerated by the spec; every sequence runs with the real tools on small populated images; every candidate backup location is read by an independent "
+        "parser after every step; then for every prescribed location the primary superblock and descriptors are zeroed and `e2fsck -fy -b LOC -B BS` (plain e2fsck for the default group size), "
+        "`e2fsck -fn` and the reader's tree digest are logged; TLC decides every line against Trace_Backups.",
+   note="Trusted: TLC, lib/sbparse.py + the check's descriptor parser, the reader's tree digest. Block sizes 1k/2k/4k with small -g; meta_bg, sparse_super2 (0/1/2 backups), flex_bg, 64bit.",
+   technique="TLA+ model of backup placement and refresh rules (TLC) + trace validation of real tool sequences and recoveries from every backup location"),
+})
 NA = {}
